@@ -277,6 +277,76 @@ theorem C03_tie_Centroid_core (p : Poly) : Gen.polygon_Centroid_core p = Go.lift
         · intro s i a b ha hb
           simp [idx_some _ i a ha, idx_some_succ _ i b hb, cxF, cyF]
 
+/-! ## similar.go -/
+
+/-- `similar` -/
+theorem C03_tie_similar (a b e : Rat) : Gen.similar a b e = .ok (similar a b e) := rfl
+
+/-- `pointSimilar` (the second comparison only runs when the first holds; neither faults) -/
+theorem C03_tie_pointSimilar (p1 p2 : P) (e : Rat) :
+    Gen.pointSimilar p1 p2 e = .ok (similar p1.x p2.x e && similar p1.y p2.y e) := by
+  unfold Gen.pointSimilar
+  simp only [C03_tie_similar, bind, Except.bind, pure, Except.pure, Go.andAlso]
+  cases similar p1.x p2.x e <;> rfl
+
+theorem pointsSimilar_length_ne (e : Rat) : ∀ (a b : List P), a.length ≠ b.length → pointsSimilar e a b = false := by
+  intro a
+  induction a with
+  | nil => intro b h; cases b with
+    | nil => exact absurd rfl h
+    | cons y t => rfl
+  | cons x t ih => intro b h; cases b with
+    | nil => rfl
+    | cons y u => simp only [pointsSimilar]; rw [ih u (by simpa using h)]; simp
+
+theorem forLtRetAux_similar (e : Rat) (a b : List P) (body : Unit → Int → M (Go.Ctl Bool Unit))
+    (hb : ∀ (i : Nat) (x y : P), a[i]? = some x → b[i]? = some y →
+      body () (i : Int) = .ok (if similar x.x y.x e && similar x.y y.y e then .next () else .ret false)) :
+    ∀ (ra rb pa pb : List P), a = pa ++ ra → b = pb ++ rb → pa.length = pb.length → ra.length = rb.length →
+      Go.forLtRetAux body ra.length (pa.length : Int) ()
+        = .ok (if pointsSimilar e ra rb then .next () else .ret false) := by
+  intro ra
+  induction ra with
+  | nil => intro rb pa pb _ _ _ hl; cases rb with
+    | nil => simp [Go.forLtRetAux, pointsSimilar, pure, Except.pure]
+    | cons y t => simp at hl
+  | cons x t ih =>
+    intro rb pa pb ha hbb hp hl
+    cases rb with
+    | nil => simp at hl
+    | cons y u =>
+      have h1 := hb pa.length x y (by rw [ha]; simp) (by rw [hbb, hp]; simp)
+      have hk : ((pa.length : Int) + 1) = ((pa ++ [x]).length : Int) := by simp
+      simp only [List.length_cons, Go.forLtRetAux, h1, bind, Except.bind, pointsSimilar]
+      by_cases hs : (similar x.x y.x e && similar x.y y.y e) = true
+      · simp only [hs, if_true, Bool.true_and]
+        rw [hk]
+        exact ih u (pa ++ [x]) (pb ++ [y]) (by simp [ha]) (by simp [hbb]) (by simp [hp]) (by simpa using hl)
+      · have hs' : (similar x.x y.x e && similar x.y y.y e) = false := by simpa using hs
+        simp [hs', pure, Except.pure]
+
+/-- `pointsSimilar` as regenerated returns, without fault (both indices stay inside their slices), the model's
+`pointsSimilar` -/
+theorem C03_tie_pointsSimilar (a b : List P) (e : Rat) : Gen.pointsSimilar a b e = .ok (pointsSimilar e a b) := by
+  unfold Gen.pointsSimilar
+  by_cases h : a.length = b.length
+  · have hd : ¬ ((a.length : Int) ≠ (b.length : Int)) := by simp [h]
+    have e0 : ((a.length : Int) - 0).toNat = a.length := by omega
+    simp only [len_eq, hd, decide_false, Bool.false_eq_true, if_false, Go.forLtRet, e0, bind, Except.bind]
+    have key : ∀ (body : Unit → Int → M (Go.Ctl Bool Unit)),
+        (∀ (i : Nat) (x y : P), a[i]? = some x → b[i]? = some y →
+          body () (i : Int) = .ok (if similar x.x y.x e && similar x.y y.y e then .next () else .ret false)) →
+        Go.forLtRetAux body a.length 0 () = .ok (if pointsSimilar e a b then .next () else .ret false) := by
+      intro body hb
+      simpa using forLtRetAux_similar e a b body hb a b [] [] rfl rfl rfl h
+    rw [key]
+    · cases pointsSimilar e a b <;> simp [pure, Except.pure]
+    · intro i x y hx hy
+      simp only [idx_some a i x hx, idx_some b i y hy, C03_tie_pointSimilar, bind, Except.bind, pure, Except.pure]
+      cases (similar x.x y.x e && similar x.y y.y e) <;> simp
+  · have hd : ((a.length : Int) ≠ (b.length : Int)) := by omega
+    simp [len_eq, hd, pointsSimilar_length_ne e a b h, pure, Except.pure]
+
 /-! ## area.go: `area`, `Polygon.Area` -/
 
 theorem copy_full {α : Type} (dst src : List α) (h : dst.length = src.length) : Go.copy dst src = src := by
@@ -482,6 +552,7 @@ theorem C03_tie_area (r : Ring) (i : Nat) (p : Poly) (hi : i < p.length) :
                     simp [hm, this, hp1]
                     omega
                 · intro m k rr
+                  simp only [C03_tie_pointsSimilar, bind, Except.bind, pure, Except.pure]
                   split <;> rfl
             · intro j x pt hx hpt
               have hn : r.length ≠ 0 := by intro e; exact hne (List.eq_nil_of_length_eq_zero e)
@@ -749,6 +820,61 @@ theorem C03_tie_MultiPolygon_Centroid (mp : MPoly) :
       simpa using h
     simp only [hd, h, if_false, Bool.false_eq_true, C03_tie_MultiPolygon_Centroid_core]
 
+/-- `op.Centroid` on a Polygon as regenerated (inline range guard: the two axis-scale blocks are the recognised
+statement group, its call of itself on the rescaled copy is the loop below the guard) returns, without fault, the
+model's `opCentroid` -/
+theorem C03_tie_op_Centroid (p : Poly) : Gen.op_Centroid p = .ok (opCentroid p) := by
+  unfold Gen.op_Centroid opCentroid centScale
+  simp only [bind, Except.bind, pure, Except.pure]
+  rw [forRange_foldl (fun (s : Rat × Rat) (r : Ring) => r.foldl (fun s v => (max s.1 (absR v.x), max s.2 (absR v.y))) s)]
+  · rw [poly_pair_foldl]
+    simp only []
+    have ex : p.foldl (fun m r => r.foldl (fun m v => max m (absR v.x)) m) (0 : Rat) = maxAbsX p := rfl
+    have ey : p.foldl (fun m r => r.foldl (fun m v => max m (absR v.y)) m) (0 : Rat) = maxAbsY p := rfl
+    simp only [ex, ey]
+    by_cases h : axisScale (maxAbsX p) ≠ 1 ∨ axisScale (maxAbsY p) ≠ 1
+    · have hd : (decide (axisScale (maxAbsX p) ≠ 1) || decide (axisScale (maxAbsY p) ≠ 1)) = true := by simpa using h
+      simp only [hd, h, if_true, len_eq, make_ok]
+      rw [forRange_fill (scaleRing (axisScale (maxAbsX p)) (axisScale (maxAbsY p)))]
+      · simp only [C03_tie_op_Centroid_core]
+        rfl
+      · intro o i r _ hi
+        simp only [make_ok, setIdx_ok o i _ hi, bind, Except.bind, pure, Except.pure, Go.forRange]
+        have hi' : i < (o.set i (List.replicate r.length (⟨0, 0⟩ : P))).length := by simpa using hi
+        refine Eq.trans (forRangeAux_row (fun v : P => (⟨v.x / axisScale (maxAbsX p), v.y / axisScale (maxAbsY p)⟩ : P)) i _ ?_
+          r (o.set i (List.replicate r.length (⟨0, 0⟩ : P))) [] (List.replicate r.length (⟨0, 0⟩ : P)) hi' (by simp)
+          (by simp)) ?_
+        · intro o j x hi hj
+          simp [setIdx2_ok o i j _ hi hj, fdiv_ok _ _ (axisScale_ne_zero (maxAbsX p)),
+            fdiv_ok _ _ (axisScale_ne_zero (maxAbsY p)), bind, Except.bind, pure, Except.pure]
+        · simp [scaleRing]
+    · have hd : (decide (axisScale (maxAbsX p) ≠ 1) || decide (axisScale (maxAbsY p) ≠ 1)) = false := by simpa using h
+      simp only [hd, h, if_false, Bool.false_eq_true, C03_tie_op_Centroid_core]
+  · intro s i r
+    rw [forRange_foldl (fun (s : Rat × Rat) (v : P) => (max s.1 (absR v.x), max s.2 (absR v.y)))]
+    intro s i v
+    rfl
+
+/-! ## op/properties.go: the Polygon / MultiPolygon cases of `Area` -/
+
+/-- `op.Area` on a Polygon -/
+theorem C03_tie_op_Area_Polygon (p : Poly) : Gen.op_Area_Polygon p = .ok (opPolygonArea p) := by
+  unfold Gen.op_Area_Polygon opPolygonArea
+  simp only [bind, Except.bind, pure, Except.pure]
+  rw [forRange_foldl (fun a r => a + opRingArea r)]
+  · simp [foldl_add_sum]
+  · intro s i x
+    simp [C03_tie_op_area]
+
+/-- `op.Area` on a MultiPolygon (its call `Area(p)` on a member is the Polygon case) -/
+theorem C03_tie_op_Area_MultiPolygon (mp : MPoly) : Gen.op_Area_MultiPolygon mp = .ok (opMultiPolygonArea mp) := by
+  unfold Gen.op_Area_MultiPolygon opMultiPolygonArea
+  simp only [bind, Except.bind, pure, Except.pure]
+  rw [forRange_foldl (fun a p => a + opPolygonArea p)]
+  · simp [foldl_add_sum]
+  · intro s i x
+    simp [C03_tie_op_Area_Polygon]
+
 /-! ## bounds.go -/
 
 /-- `(*Bounds).Area` (non-nil receiver) -/
@@ -781,6 +907,20 @@ theorem C03_tie_op_length (l : List (Pt α)) : Gen.op_length l = .ok (lineString
   · simp [lengthGo_pairFold]
   · intro s i a b ha hb
     simp [idx_some l i a ha, idx_some_succ l i b hb]
+
+/-- `op.Length` on a LineString -/
+theorem C03_tie_op_Length_LineString (l : List (Pt α)) : Gen.op_Length_LineString l = .ok (lineStringLength l) := by
+  unfold Gen.op_Length_LineString
+  simp [C03_tie_op_length, bind, Except.bind, pure, Except.pure]
+
+/-- `op.Length` on a MultiLineString (its call `Length(line)` on a member is the LineString case) -/
+theorem C03_tie_op_Length_MultiLineString (ml : List (List (Pt α))) :
+    Gen.op_Length_MultiLineString ml = .ok (multiLineStringLength ml) := by
+  unfold Gen.op_Length_MultiLineString multiLineStringLength
+  simp only [bind, Except.bind, pure, Except.pure]
+  rw [forRange_foldl (fun acc l => acc + lineStringLength l)]
+  intro s i x
+  simp [C03_tie_op_Length_LineString]
 
 /-- `LineString.Length` as regenerated returns, without fault, the model's `lineStringLength` -/
 theorem C03_tie_LineString_Length (l : List (Pt α)) : Gen.lineString_Length l = .ok (lineStringLength l) := by
